@@ -350,3 +350,79 @@ func unsealedLike(raw, ref *types.RootCertificate) *types.RootCertificate {
 	}
 	return c
 }
+
+// JudgeRotateSkipStorage calls RotateRootCertificates with WithSkipStorage(true)
+// and judges the RETURN value alone against the decision table (what the call does
+// to storage under that option is not specified by the statement and not judged).
+func JudgeRotateSkipStorage(w *World, cfg RootConfig, reinit bool) (RotateResult, RotViolation) {
+	res := RotateResult{Before: w.RawRoots()}
+	opts := w.O(cfg.Opts()...)
+	opts = append(opts, nodeenrollment.WithSkipStorage(true))
+	if reinit {
+		opts = append(opts, nodeenrollment.WithReinitializeRoots(true))
+	}
+	res.T0 = time.Now()
+	ret, err := rotation.RotateRootCertificates(w.Ctx, w.Store, opts...)
+	res.T1 = time.Now()
+	res.Err = err
+	exp, amb := ExpectedOutcome(res.Before, res.T0, reinit)
+	res.Expected = exp
+	fail := func(key, f string, a ...any) (RotateResult, RotViolation) {
+		return res, RotViolation{Key: "C08/skip-storage/" + key, What: fmt.Sprintf(f, a...)}
+	}
+	if err != nil {
+		res.Outcome = Failed
+		if res.Before == nil || res.Before.Current == nil || res.Before.Next == nil {
+			return res, RotViolation{} // nothing loadable: refusing is fine
+		}
+		return fail("unexpected-error", "rotation with skip-storage failed: %v", err)
+	}
+	res.After = ret
+	if ret == nil || ret.Current == nil || ret.Next == nil {
+		return fail("incomplete-return", "returned root set is incomplete")
+	}
+	pub := func(r *types.RootCertificate) []byte {
+		if r == nil {
+			return nil
+		}
+		return r.PublicKeyPkix
+	}
+	var oc, on []byte
+	if res.Before != nil {
+		oc, on = pub(res.Before.Current), pub(res.Before.Next)
+	}
+	nc, nn := pub(ret.Current), pub(ret.Next)
+	switch {
+	case oc != nil && on != nil && bytes.Equal(nc, oc) && bytes.Equal(nn, on):
+		res.Outcome = Nothing
+	case on != nil && bytes.Equal(nc, on) && !bytes.Equal(nn, oc) && !bytes.Equal(nn, on):
+		res.Outcome = Promote
+	case oc != nil && bytes.Equal(nc, oc) && !bytes.Equal(nn, on) && !bytes.Equal(nn, oc):
+		res.Outcome = RemintNext
+	case !bytes.Equal(nc, oc) && !bytes.Equal(nc, on) && !bytes.Equal(nn, oc) && !bytes.Equal(nn, on):
+		res.Outcome = StartOver
+	default:
+		return fail("unclassifiable-outcome", "returned roots are an unexpected mixture of old and new keys")
+	}
+	ok := res.Outcome == exp
+	for _, a := range amb {
+		ok = ok || res.Outcome == a
+	}
+	if exp1, amb1 := ExpectedOutcome(res.Before, res.T1, reinit); exp1 != exp {
+		ok = ok || res.Outcome == exp1
+		for _, a := range amb1 {
+			ok = ok || res.Outcome == a
+		}
+	}
+	if !ok {
+		return fail("decision/"+string(exp)+"-expected-got-"+string(res.Outcome), "decision table (return value, storage skipped): expected %s, observed %s (reinit=%v)", exp, res.Outcome, reinit)
+	}
+	if ret.Current.Id != string(nodeenrollment.CurrentId) || ret.Next.Id != string(nodeenrollment.NextId) {
+		return fail("labels", "labels are %q/%q", ret.Current.Id, ret.Next.Id)
+	}
+	cNB, cNA := ret.Current.NotBefore.AsTime(), ret.Current.NotAfter.AsTime()
+	if cNB.After(res.T1) || cNA.Before(res.T0) {
+		return fail("current-not-valid", "current %v..%v is not valid at the time of the call", cNB, cNA)
+	}
+	return res, RotViolation{}
+}
